@@ -15,6 +15,8 @@ Proof.
   destruct a, b; simpl; split; intro H; try discriminate; try reflexivity.
   - apply Nat.eqb_eq in H. congruence.
   - inversion H. apply Nat.eqb_refl.
+  - apply str_eqb_eq in H. congruence.
+  - inversion H. apply str_eqb_eq. reflexivity.
 Qed.
 
 Lemma existsb_ref x l : existsb (ref_eqb x) l = true <-> In x l.
@@ -150,7 +152,9 @@ Section Proofs.
 
   Lemma valid_all_refs (g : graph) r : valid g r <-> In r (all_refs g).
   Proof.
-    unfold valid, all_refs, obj_refs. destruct r as [|i]; simpl.
+    unfold valid, all_refs, obj_refs. destruct r as [|i|a]; simpl.
+    3:{ split; [congruence|]. intros [H|H]; [discriminate|]. apply in_map_iff in H.
+        destruct H as [j [Hj _]]. discriminate. }
     - split; [auto | discriminate].
     - rewrite nth_error_Some. split.
       + intro H. right. apply in_map. apply in_seq. lia.
@@ -172,7 +176,11 @@ Section Proofs.
 
   (* AbsID() terminates and dereferences no nil pointer on a well-formed graph *)
   Lemma absid_total (g : graph) : WF g -> forall r, valid g r -> exists a, absid g r = Some a.
-  Proof. intros W r V. apply reaches_absid. apply (wf_acyclic W). exact V. Qed.
+  Proof.
+    intros W r V. assert (absid g r = absid_fuel g (fuel_of g) r) as ->.
+    { destruct r; try reflexivity. exfalso. apply V. reflexivity. }
+    apply reaches_absid. apply (wf_acyclic W). exact V.
+  Qed.
 
   Lemma absid_aid (g : graph) : WF g -> forall r, valid g r -> absid g r = Some (aid g r).
   Proof. intros W r V. unfold aid. destruct (absid_total g W r V) as [a Ha]. rewrite Ha. reflexivity. Qed.
